@@ -4,7 +4,7 @@
    [flags_local] is false for it, and loading it after rfc3986 rewrites the first-match flag of definitions
    that rfc3986 uses — the snapshot of the rfc3986 class changes.  With the bundled description (guarded loop)
    LoadBundled.C14_all_orders shows that this cannot happen. *)
-From Coq Require Import List NArith Arith Bool.
+From Coq Require Import String List NArith Arith Bool.
 Import ListNotations.
 From ABNF Require Import Base Engine AbnfRead Registry GenTypes Loader GenBundled Bundled TablesAll
      LoadFrame1 LoadAbs LoadSim3.
@@ -20,7 +20,7 @@ Definition R_3986 : reg := match load_class bundled g3986 (r_boot tt) with Some 
 Definition R_3987u : reg := match load_class bundled g3987_unguarded R_3986 with Some R => R | None => reg0 end.
 
 Definition sharp_check : bool :=
-  str_eqb (gmod g3986) (s_of "rfc3986") && str_eqb (gmod g3987) (s_of "rfc3987") &&
+  str_eqb (gmod g3986) (s_of "rfc3986"%string) && str_eqb (gmod g3987) (s_of "rfc3987"%string) &&
   match cls_of bundled (gmod g3986) (gcls g3986), cls_of bundled (gmod g3987) (gcls g3987),
         load_class bundled g3987_unguarded R_3986 with
   | Some c86, Some c87, Some _ =>
